@@ -254,27 +254,93 @@ func c18Scopes(c *Ctx) {
 				}
 				n++
 				ctx := call.Call.Args[0]
-				fromIter := false
-				if c2, ok := ctx.(*ssa.Call); ok && c2.Call.StaticCallee() == ev {
-					fromIter = true
+				// the edge (p -> to) or block b is only taken when there is no iteration
+				nilGuard := func(p, to *ssa.BasicBlock) bool {
+					isNilTest := func(blk, succ *ssa.BasicBlock) bool {
+						iff, ok := lastIf(blk)
+						if !ok || blk.Succs[0] == blk.Succs[1] {
+							return false
+						}
+						bo, ok := iff.Cond.(*ssa.BinOp)
+						if !ok || !(isNilConst(bo.X) || isNilConst(bo.Y)) {
+							return false
+						}
+						other := bo.X
+						if isNilConst(bo.X) {
+							other = bo.Y
+						}
+						if pt, ok := other.Type().(*types.Pointer); !ok || !isNamed(pt.Elem(), dynblockPath, "iteration") {
+							return false
+						}
+						nilEdge := 0
+						if bo.Op == token.NEQ {
+							nilEdge = 1
+						}
+						return blk.Succs[nilEdge] == succ
+					}
+					if to != nil && isNilTest(p, to) {
+						return true
+					}
+					for d := p; d != nil && d.Idom() != nil; d = d.Idom() {
+						if len(d.Preds) == 1 && isNilTest(d.Idom(), d) {
+							return true
+						}
+					}
+					return false
 				}
+				// every origin of the context is the iteration's context, or the caller's on a no-iteration path
+				var iterOnly func(v ssa.Value, at *ssa.BasicBlock, d int) (allIter bool, ok bool)
+				iterOnly = func(v ssa.Value, at *ssa.BasicBlock, d int) (bool, bool) {
+					if d > 6 {
+						return false, false
+					}
+					if ld, isLd := v.(*ssa.UnOp); isLd && ld.Op == token.MUL {
+						if al, isAl := ld.X.(*ssa.Alloc); isAl {
+							if st := reachingStore(al, ld); st != nil {
+								return iterOnly(st.Val, st.Block(), d+1)
+							}
+							// several stores: every one of them must qualify where it is made
+							all := true
+							for _, st := range storesInto(al) {
+								it, ok := iterOnly(st.Val, st.Block(), d+1)
+								if !ok {
+									return false, false
+								}
+								all = all && it
+							}
+							return all, true
+						}
+					}
+					if c2, isCall := v.(*ssa.Call); isCall && c2.Call.StaticCallee() == ev {
+						return true, true
+					}
+					if phi, isPhi := v.(*ssa.Phi); isPhi {
+						all := true
+						for i, e := range phi.Edges {
+							it, ok := iterOnly(e, phi.Block().Preds[i], d+1)
+							if !ok {
+								if nilGuard(phi.Block().Preds[i], phi.Block()) {
+									all = false
+									continue
+								}
+								return false, false
+							}
+							all = all && it
+						}
+						return all, true
+					}
+					// the caller's context
+					if nilGuard(at, nil) {
+						return false, true
+					}
+					return false, false
+				}
+				allIter, okCtx := iterOnly(ctx, b, 0)
+				fromIter := okCtx && allIter
 				key := "ext/dynblock." + fnName + ":eval[" + what + "]"
 				if wantIterCtx {
-					// allowed: plain ctx only on the path where no iteration exists (e.i == nil)
 					if !fromIter {
-						guarded := false
-						for d := b; d != nil; d = d.Idom() {
-							idom := d.Idom()
-							if idom == nil {
-								break
-							}
-							if iff, ok := idom.Instrs[len(idom.Instrs)-1].(*ssa.If); ok {
-								if bo, ok := iff.Cond.(*ssa.BinOp); ok && (isNilConst(bo.X) || isNilConst(bo.Y)) && bo.Op == token.EQL && idom.Succs[0] == d {
-									guarded = true
-								}
-							}
-						}
-						c.Check(guarded, "scope", key, call.Pos(), "outer context only when there is no iteration",
+						c.Check(okCtx, "scope", key, call.Pos(), "outer context only when there is no iteration",
 							what+" is evaluated in the caller's context although an iteration exists: the iterator variables are not bound")
 						continue
 					}
